@@ -26,6 +26,17 @@ Definition missing_names (f : file) (i : import) : list (str * pos) :=
 
 Definition is_nil {A} (l : list A) : bool := match l with [] => true | _ => false end.
 
+(** the two errors the property speaks of *)
+Definition positioned (e : ierr) : bool :=
+  match e with FileNotFound _ _ | FragmentNotFound _ _ _ => true | _ => false end.
+
+(** two stores / files that differ only in the order of import lines *)
+From Coq Require Import Permutation.
+Definition file_perm (f f' : file) : Prop :=
+  fdefs f = fdefs f' /\ Permutation (fimports f) (fimports f').
+Definition store_perm (st st' : store) : Prop :=
+  Forall2 (fun a b : key * file => fst a = fst b /\ file_perm (snd a) (snd b)) st st'.
+
 Section Spec.
   Variable st : store.
 
@@ -51,6 +62,24 @@ Section Spec.
       | None => True
       | Some f => missing_names f i <> []
       end.
+
+  (** what each kind of failure of the resolver must be justified by: a reachable line that points
+      at no configured file (with that line's path string and path position), resp. that names a
+      fragment its target does not define (with that name's position); the panic of the current
+      code corresponds to a line all of whose names are defined but which has more names than
+      matching fragments *)
+  Definition Justified (doc : key) (imps : list import) (e : ierr) : Prop :=
+    match e with
+    | FileNotFound file p =>
+        exists k i, RL doc imps k i /\ lookup st k = None /\ file = ipath i /\ p = ipos i
+    | FragmentNotFound n file p =>
+        exists k i f, RL doc imps k i /\ lookup st k = Some f /\ In (n, p) (missing_names f i)
+                      /\ file = ipath i
+    | PanicMissingTarget =>
+        exists k i f ts, RL doc imps k i /\ lookup st k = Some f /\ itargets i = Specific ts
+                         /\ missing_names f i = [] /\ length (wanted f i) < length ts
+    | OutOfFuel => True
+    end.
 
   (** * Computable side: a candidate set [ks] of reached keys *)
 
@@ -137,6 +166,9 @@ Section Spec.
   Definition frag_names (f : file) : list str := map def_name (filter def_is_frag (fdefs f)).
   Definition target_names (i : import) : list str :=
     match itargets i with Wildcard => [] | Specific ts => map fst ts end.
+
+  Definition error_guard_b (root_path : key) (root : file) (ks : list key) : bool :=
+    closed_b root_path root ks && agree_b (all_lines root_path root ks).
 
   Definition names_guard_b (ks : list key) (ls : list (key * import)) : bool :=
     forallb (fun k => match lookup st k with Some f => nodup_strs (frag_names f) | None => true end) ks
